@@ -12,7 +12,9 @@ RULE = (
     "decimal lattice: error mantissas 1.00 ... 9.99 and 9.950 ... 9.999, "
     "value mantissas from a rounding-boundary set (about 60), both signs and "
     "x = 0, value exponents {-300, -12..12, 300} (quick -3..3), error/value "
-    "exponent offsets -12..12 (quick -4..4); each formatted string is read "
+    "exponent offsets -12..12 (quick -4..4), plus sparser sweeps at value / "
+    "error exponents +-{16,17,99,100,101,200,300} (printed-width changes and "
+    "the ends of the float range); each formatted string is read "
     "back by an independent regex + Decimal reader; non-trivial = every "
     "point (each is a distinct (x, err) pair)"
 )
@@ -68,6 +70,15 @@ def tasks(tier):
             for off_chunk in core.chunked(offs, 3 if tier == "thorough" else 9):
                 out.append({"xexp": xe, "sign": sign, "offs": off_chunk,
                             "tier": tier})
+    # magnitudes where the exponent changes its printed width, and the ends
+    # of the float range (sparser mantissas)
+    far = [-300, -200, -101, -100, -99, -17, 16, 99, 100, 101, 200, 300]
+    for xe in far:
+        if xe in xexps:
+            continue
+        for sign in (1, -1):
+            out.append({"xexp": xe, "sign": sign, "offs": [-3, -1, 0, 1, 2, 4],
+                        "tier": tier, "sparse": True})
     out.append({"zero": True, "tier": tier})
     return out
 
@@ -116,9 +127,13 @@ def run_task(task):
     out = {"n": 0, "vio": {}, "sample": None, "shapes": set()}
     tier = task["tier"]
     if task.get("zero"):
-        for em, ee in itertools.product(err_mantissas(True),
-                                        range(-12, 13) if tier == "thorough"
-                                        else range(-4, 5)):
+        zexps = [(em, ee) for em in err_mantissas(True)
+                 for ee in (range(-12, 13) if tier == "thorough"
+                            else range(-4, 5))]
+        zexps += [(em, ee) for em in err_mantissas(False)[::5]
+                  for ee in (-300, -170, -101, -100, -99, -20, 20, 99, 100,
+                             101, 250, 300)]
+        for em, ee in zexps:
             err = float("%se%d" % (em, ee))
             for x in (0.0, -0.0):
                 out["n"] += 1
@@ -143,6 +158,8 @@ def run_task(task):
         ems = err_mantissas(dense)
         if tier == "quick" and not dense:
             ems = ems[::2] if abs(off) <= 4 else ems[::6]
+        if task.get("sparse"):
+            ems = ems[::9]
         ee = xe + off
         if not -320 < ee < 305:
             continue
